@@ -137,8 +137,11 @@ func c15AliasScenario(rng *RNG, codecName string, codec compression.Codec) strin
 		if rng.Intn(3) == 0 {
 			rc = rc2
 		}
-		if i == 0 || rng.Intn(3) == 0 {
+		if i <= 1 || rng.Intn(3) == 0 {
 			n := 200 + rng.Intn(4000)
+			if i == 1 {
+				n = 2200000 + rng.Intn(1500000) // a row of a few MiB: one response frame above 2 MiB
+			}
 			row := fmt.Sprintf("row%d/%d", i, n)
 			g, _ := hrpc.NewGetStr(context.Background(), "t", row, hrpc.SkipBatch())
 			m, err := send(rc, g)
